@@ -53,7 +53,7 @@ PROPS = {
                 gens=[(["join"], "mt", 0.3), (["join"], "drain", 0.5), (["join"], "exh", 1.0), (["join"], "random", 1.0), (["join"], "stuck", 0.3), (["join"], "panic", 0.2),
                       (["join"], "big", 0.08), (["join"], "waves", 0.25)],
                 assumptions=COMMON_ASSUME),
-    "C05": dict(monitors=["C05", "C02", "NP", "LV"], monitor="C05", proj="FUN+C02", modules=["C05", "C04state", "C02a", "C01"], ps=True, cfgs=ALL3, quick=1500, thorough=20000,
+    "C05": dict(ktie=["TryJoinV"], monitors=["C05", "C02", "NP", "LV"], monitor="C05", proj="FUN+C02", modules=["C05", "C04state", "C02a", "C01"], ps=True, cfgs=ALL3, quick=1500, thorough=20000,
                 gens=[(["try_join"], "mt", 0.3), (["try_join"], "drain", 0.5), (["try_join"], "exh", 1.0), (["try_join"], "random", 1.0), (["try_join"], "errs", 0.6), (["try_join"], "stuck", 0.2),
                       (["try_join"], "panic", 0.2), (["try_join"], "big", 0.08), (["try_join"], "waves", 0.2)],
                 assumptions=COMMON_ASSUME),
@@ -75,7 +75,7 @@ PROPS = {
                 gens=[(["merge"], "mt", 0.3), (["merge"], "drain", 0.5), (["merge"], "exh", 1.0), (["merge"], "random", 1.0), (["merge"], "fair", 0.4), (["merge"], "stuck", 0.2),
                       (["merge"], "panic", 0.2), (["merge"], "big", 0.08), (["merge"], "waves", 0.1)],
                 assumptions=COMMON_ASSUME),
-    "C09": dict(monitors=["C09", "C02", "NP", "LV"], monitor="C09", proj="FUN+C02", modules=["C09", "C02a", "C01"], cfgs=ALL3, quick=2500, thorough=30000,
+    "C09": dict(ktie=["ZipV"], monitors=["C09", "C02", "NP", "LV"], monitor="C09", proj="FUN+C02", modules=["C09", "C02a", "C01"], cfgs=ALL3, quick=2500, thorough=30000,
                 gens=[(["zip"], "mt", 0.3), (["zip"], "drain", 0.5), (["zip"], "exh", 1.0), (["zip"], "random", 1.0), (["zip"], "fair", 0.4), (["zip"], "stuck", 0.2),
                       (["zip"], "panic", 0.2), (["zip"], "big", 0.08), (["zip"], "waves", 0.1)],
                 assumptions=COMMON_ASSUME + ["zip over zero inputs is outside C09"]),
